@@ -9,6 +9,7 @@ package server
 // The operation generator is shared with the crash harness (C12).
 
 import (
+	"bytes"
 	"context"
 	"encoding/json"
 	"fmt"
@@ -83,7 +84,7 @@ func (o storeOp) String() string {
 var (
 	opModels = []string{"alpha", "Alpha", "beta", "team/alpha", "Team/alpha", "TEAM/Beta", simRegHost + "/lib/m0", simRegHost + "/LIB/m0", simRegHost + "/lib/M0", simRegHost + "/lib/m1", "example.com/team/alpha", "EXAMPLE.com/team/Alpha"}
 	opTags   = []string{"", ":latest", ":v1", ":V1", ":Latest"}
-	opPulls  = []string{simRegHost + "/lib/m0", simRegHost + "/lib/m1", simRegHost + "/LIB/m0", simRegHost + "/lib/M0", simRegHost + "/lib/m0:v1", simRegHost + "/lib/m0:V1", simRegHost + "/Lib/M1:latest"}
+	opPulls  = []string{simRegHost + "/lib/m0", simRegHost + "/lib/m1", simRegHost + "/LIB/m0", simRegHost + "/lib/M0", simRegHost + "/lib/m0:v1", simRegHost + "/lib/m0:V1", simRegHost + "/Lib/M1:latest", simRegHost + "/lib/m2"}
 )
 
 // Every run concentrates on a few models and tags (drawn by focusOpNames), so that histories
@@ -284,6 +285,11 @@ func (w *storeWorld) publishGGUFModels() {
 	mk("lib/m0:latest", 10, "")
 	mk("lib/m0:v1", 11, " v1")
 	mk("lib/m1:latest", 10, "") // shares every layer but the license/config with m0
+	// m2 shares its GGUF layer with m0 and m1, and its manifest spells that layer's
+	// digest sha256-<hex> (GetBlobsPath takes both spellings: same blob file)
+	mk("lib/m2:latest", 10, " m2")
+	gd := sha256Digest(ggufBytes(10))
+	w.reg.manifests["lib/m2:latest"] = bytes.Replace(w.reg.manifests["lib/m2:latest"], []byte(gd), []byte(strings.Replace(gd, ":", "-", 1)), 1)
 	w.reg.foldCase = true
 }
 
